@@ -14,7 +14,7 @@ CFG = dict(
                'Trusted: Coq kernel, the harness printers and its parsing of the printed blocker texts, the reference evaluator (checked closed/layered/safe per case). '
                'The Gallina model is hand-written; its agreement with the Rust code is checked by correspondence, not proved.',
     technique='Coq proof about an executable model of explain_why_not + per-run differential correspondence and semantic oracle',
-    bin='c23', n_quick=120, n_thorough=2500,
+    bin='c23', n_quick=120, n_thorough=600,
     corr_name='Model/ProvWhyNot.v explain vs explain_why_not (per-clause blockers)',
     rule='same generator and corpus as C21; for every derived relation ALL candidate tuples over the 4-value domain (library path with the model as derived data) or a '
          'sample of 10 (Handler `.why_not`); non-trivial = some clause reports an atom/comparison/negation blocker; distinct by program text and path',
